@@ -58,6 +58,8 @@ type Engine struct {
 	inSummary   map[*ssa.Function]bool
 	probes      map[*ssa.Function]map[int]*NameSet
 	anchorOrds  map[*ssa.Function]map[anchorKey]int
+	pendingTargets map[*ssa.Function]bool
+	plainRecvTypes map[string]bool
 	mutGlobals  map[*ssa.Global]bool
 	globalAlias map[string]string
 	globalInit  map[*ssa.Global]ssa.Value
@@ -83,7 +85,7 @@ func loadEngine(repo string) (*Engine, error) {
 		funcs: map[string]*ssa.Function{}, contracts: map[string]*Contract{}, ghosts: map[string]types.Type{}, chanInv: map[string]ast.Expr{},
 		fieldIDs: map[string]int{}, fieldByID: map[int]escField{}, escFields: map[string][]escField{}, tagIDs: map[string]int{},
 		knownSet: map[string]bool{}, nextForTag: foreignTagBase + 16,
-		inlineMemo: map[*ssa.Function]bool{}, summaries: map[*ssa.Function]*NameSet{}, inSummary: map[*ssa.Function]bool{}, probes: map[*ssa.Function]map[int]*NameSet{}, anchorOrds: map[*ssa.Function]map[anchorKey]int{},
+		inlineMemo: map[*ssa.Function]bool{}, summaries: map[*ssa.Function]*NameSet{}, inSummary: map[*ssa.Function]bool{}, probes: map[*ssa.Function]map[int]*NameSet{}, anchorOrds: map[*ssa.Function]map[anchorKey]int{}, pendingTargets: map[*ssa.Function]bool{}, plainRecvTypes: map[string]bool{},
 		mutGlobals: map[*ssa.Global]bool{}, globalAlias: map[string]string{}, globalInit: map[*ssa.Global]ssa.Value{},
 	}
 	e.sizes = types.SizesFor("gc", "amd64")
@@ -210,6 +212,20 @@ func (e *Engine) scanProgram() {
 		for _, b := range fn.Blocks {
 			for _, in := range b.Instrs {
 				switch x := in.(type) {
+				case *ssa.UnOp:
+					if x.Op == token.ARROW && !x.CommaOk {
+						if ct, ok := x.X.Type().Underlying().(*types.Chan); ok {
+							e.plainRecvTypes[typeKey(ct.Elem())] = true
+						}
+					}
+				case *ssa.Select:
+					for _, st := range x.States {
+						if st.Dir == types.RecvOnly {
+							if ct, ok := st.Chan.Type().Underlying().(*types.Chan); ok {
+								e.plainRecvTypes[typeKey(ct.Elem())] = true
+							}
+						}
+					}
 				case *ssa.MakeInterface:
 					addKnown(x.X.Type())
 				case *ssa.FieldAddr:
@@ -439,8 +455,15 @@ func (e *Engine) sentinelAxioms(fc *FnCtx, g *ssa.Global, v Val) {
 			}
 		}
 	}
-	// generic sentinel: a foreign dynamic type, pairwise distinct from other generic sentinels
+	// generic sentinel: a foreign dynamic type, pairwise distinct from other generic sentinels, older than any
+	// object allocated by the function under verification, and (errors.New values) wrapping nothing
 	fc.axiom(app("bvuge", v.L[0], bvLit(foreignTagBase, 16)))
+	fc.axiom(app("bvult", v.L[1], "allocbase"))
+	fc.declareFunOnce("unw_tag", "("+SortTag+" (_ BitVec 64)) "+SortTag)
+	fc.declareFunOnce("unw_pay", "("+SortTag+" (_ BitVec 64)) (_ BitVec 64)")
+	if e.isErrorsNewGlobal(g) {
+		fc.axiom(eq(app("unw_tag", v.L[0], v.L[1]), bvLit(0, 16)))
+	}
 	for _, o := range fc.sentinels {
 		fc.axiom(not(and(eq(v.L[0], o.L[0]), eq(v.L[1], o.L[1]))))
 	}
@@ -454,6 +477,11 @@ func (e *Engine) summary(fn *ssa.Function) *NameSet {
 	if s, ok := e.summaries[fn]; ok {
 		return s
 	}
+	if e.inSummary[fn] {
+		// recursive edge: the function's own writes are accounted for at the root of the cycle
+		e.pendingTargets[fn] = true
+		return newNameSet()
+	}
 	ns := e.summary0(fn)
 	if c := e.contracts[e.fnName(fn)]; c != nil && len(c.GhostUpd) > 0 && !ns.All {
 		cp := newNameSet()
@@ -463,7 +491,14 @@ func (e *Engine) summary(fn *ssa.Function) *NameSet {
 		}
 		ns = cp
 	}
-	e.summaries[fn] = ns
+	delete(e.pendingTargets, fn)
+	if len(e.pendingTargets) == 0 {
+		e.summaries[fn] = ns
+	} else {
+		// partial result (depends on a function still being summarised): do not cache
+		delete(e.summaries, fn)
+		delete(e.probes, fn)
+	}
 	return ns
 }
 
@@ -537,9 +572,6 @@ func (e *Engine) summary0(fn *ssa.Function) *NameSet {
 		e.summaries[fn] = ns
 		return ns
 	}
-	if e.inSummary[fn] {
-		return &NameSet{All: true, Why: "recursion through " + e.fnName(fn)}
-	}
 	if fn.Blocks == nil || !e.inRepo(fn) {
 		ns := newNameSet()
 		foreignWrites(fn.Signature, ns)
@@ -571,7 +603,8 @@ func (e *Engine) probeWrites(fn *ssa.Function) map[int]*NameSet {
 		return pw
 	}
 	if e.inSummary[fn] {
-		return nil
+		e.pendingTargets[fn] = true
+		return map[int]*NameSet{}
 	}
 	e.inSummary[fn] = true
 	defer delete(e.inSummary, fn)
@@ -753,4 +786,48 @@ func (e *Engine) isRepoPtrType(t types.Type) bool {
 		}
 	}
 	return false
+}
+
+// isErrorsNewGlobal: package-level "var x = errors.New(...)".
+func (e *Engine) isErrorsNewGlobal(g *ssa.Global) bool {
+	if init, ok := e.globalInit[g]; ok {
+		if c, ok := init.(*ssa.Call); ok {
+			if f := c.Call.StaticCallee(); f != nil && f.String() == "errors.New" {
+				return true
+			}
+		}
+		return false
+	}
+	switch g.String() {
+	case "io.EOF", "io.ErrUnexpectedEOF", "io/fs.ErrNotExist", "io/fs.ErrPermission", "io/fs.ErrExist", "io/fs.ErrInvalid", "io/fs.ErrClosed":
+		return true
+	}
+	return false
+}
+
+// isRepoIface: interface type declared in (or literal inside) the repository's packages, whose unexported methods
+// therefore belong to the repository.
+func (e *Engine) isRepoIface(t types.Type) bool {
+	iface, ok := t.Underlying().(*types.Interface)
+	if !ok {
+		return false
+	}
+	for i := 0; i < iface.NumMethods(); i++ {
+		m := iface.Method(i)
+		if !m.Exported() {
+			if m.Pkg() == nil {
+				return false
+			}
+			in := false
+			for _, rp := range repoPkgs {
+				if m.Pkg().Path() == rp {
+					in = true
+				}
+			}
+			if !in {
+				return false
+			}
+		}
+	}
+	return true
 }
